@@ -1,7 +1,14 @@
 ----------------------------- MODULE LinksConst -----------------------------
-(* Constants of Links/Views that a TLC configuration file cannot spell (sequences).  This   *)
-(* file holds the SHIPPED values; harness/c05_lib.py regenerates it in the scratch          *)
-(* directory from the working tree's conf/pygopherd.conf and protocol classes (binding B1). *)
+(* Constants of Links/Views that a TLC configuration file cannot spell: sequences, and sets *)
+(* of strings containing escapes (cfg files do not process \" or \\).  This file holds the  *)
+(* SHIPPED protocol order and the quick-tier alphabets; harness/c05_lib.py regenerates it   *)
+(* in the scratch directory from the working tree's conf/pygopherd.conf (binding B1) and    *)
+(* the tier parameters.                                                                     *)
 K_ProtoOrder == <<"WAPProtocol", "GeminiProtocol", "HTTPProtocol", "HTTPSProtocol", "SpartanProtocol",
                   "GopherPlusProtocol", "SecureGopherPlusProtocol", "GopherProtocol", "SecureGopherProtocol">>
+K_Tokens == {"a", " ", "%", "?", "#", "|", "+", "&", "\"", "^", ":", "..", "%41", "wap", "GEMINI-QUERY"}
+K_Shapes == {"wapiti", "a b 1", "GEMINI-QUERYx", "URL:a"}
+K_InnerTokens == {"a", " ", "%", "?", "#", "|", "+", "^", ":", "URL:a", "a b 1", "x:y"}
+K_Views == {"G", "GP", "GD", "SG", "H", "HS", "W", "M", "S"}
+K_HLs == {"default", "full"}
 =============================================================================
